@@ -591,3 +591,6 @@ for _p in ("C03", "C10"):
     PROPS[_p]["proofs"] = PROPS[_p]["proofs"] + ["Bmc.Proofs.EndToEnd.SessionC03"]
     PROPS[_p]["claim"] += (" END TO END: generated_loop_datagrams (Proofs/EndToEnd/SessionC03.lean) — what buildAndSend AS TRANSLATED ON THIS RUN hands to the transport is, "
                            "datagram by datagram, the specification-shaped packet for the caller's command (nthDatagram), as many as the documented contract says.")
+PROPS["C14"]["proofs"] = PROPS["C14"]["proofs"] + ["Bmc.Proofs.EndToEnd.WalkC14"]
+PROPS["C14"]["claim"] += (" END TO END: generated_walkSDRs_complete (Proofs/EndToEnd/WalkC14.lean) — walkSDRs AS TRANSLATED ON THIS RUN returns exactly the Full Sensor "
+                          "Records of any well-formed repository held by the conforming device, each under its own ID.")
